@@ -104,6 +104,7 @@ _COMPILE_CLASSES = [
     (r'already has basic type|already declared|Duplicate', 'duplicate-declaration'),
     (r'More actual than formal arguments|Missing actual argument|Keyword argument', 'argument-list-mismatch'),
     (r'No such file or directory', 'include-file-missing'),
+    (r'cannot be redefined inside loop', 'enclosing-loop-variable-redefined'),
 ]
 
 
